@@ -3,6 +3,7 @@ package checks
 import (
 	"crypto/sha256"
 	"fmt"
+	"math"
 	"math/big"
 	"sort"
 
@@ -195,6 +196,20 @@ func tamper(s *scen.Scn, b *types.Block, other *types.Block, prev *types.Header,
 		return "feepergas.nonzero-wrong"
 	case 14:
 		h.Time = prev.Time() + int64(arg%10) // closer than MinBlockDelay (10 s)
+		switch (arg / 16) % 6 {
+		case 2:
+			h.Time = prev.Time() - 1 - int64(arg%100000) // before the parent
+			return "time.before-parent"
+		case 3:
+			h.Time = math.MinInt64 + int64(arg%100000)
+			return "time.near-min-int64"
+		case 4:
+			h.Time = math.MinInt64 + prev.Time() - 1 - int64(arg%100000) // the int64 difference to the parent wraps
+			return "time.difference-to-parent-wraps"
+		case 5:
+			h.Time = math.MaxInt64 - int64(arg)%60000000000 // time.Unix wraps internally
+			return "time.near-max-int64"
+		}
 		return "time.too-close"
 	case 15:
 		h.Time = now + 121 + int64(arg%600) // beyond MaxFutureBlockOffset (2 min) of the receiver's clock
